@@ -11,3 +11,29 @@ Definition run_textline_case (args : list sexp) : sexp :=
                 end
   | _ => bad "textline: shape"
   end.
+
+(* (esc kind ("tok" ...) "expected" ("tag" ...)) -> (text "rendered text" ("tag" ...)) | (none):
+   the whole path of a literal line: TextMode lexing, then the markup phase of the text. *)
+From YS Require Import Markup.LineParser.
+
+Definition literal_pipeline (src : str) : option (str * list str) :=
+  match lex_line src with
+  | Some (t, tags) => match parse_markup t with
+                      | Some (txt, _) => Some (txt, tags)
+                      | None => None
+                      end
+  | None => None
+  end.
+
+Definition run_esc_case (args : list sexp) : sexp :=
+  match args with
+  | [_; SL toks; _; _] =>
+      match map_opt (fun x => match x with SS s => Some s | _ => None end) toks with
+      | Some ts => match literal_pipeline (concat ts) with
+                   | Some (t, tags) => tagged "text" [SS t; SL (map SS tags)]
+                   | None => tagged "none" []
+                   end
+      | None => bad "esc: tokens"
+      end
+  | _ => bad "esc: shape"
+  end.
